@@ -5,6 +5,7 @@ import (
 	"bytes"
 	"io"
 	"strconv"
+	"strings"
 )
 
 // Scanner represents a lexical scanner.
@@ -119,10 +120,13 @@ func (s *Scanner) scanIdent(ignoreSemiColumn bool) (tok Token, lit string) {
 		}
 	}
 
-	_, err := strconv.ParseFloat(buf.String(), 64)
+	// Blanks and line breaks between the end of a label and the next
+	// delimiter are not part of the label
+	lit = strings.TrimRight(buf.String(), " \t\r\n")
+	_, err := strconv.ParseFloat(lit, 64)
 	if err != nil {
-		return IDENT, buf.String()
+		return IDENT, lit
 	} else {
-		return NUMERIC, buf.String()
+		return NUMERIC, lit
 	}
 }
